@@ -209,6 +209,80 @@ func main() {
 		}
 		output.Functions = append(output.Functions, rep)
 	}
+	// scan mode: functions without a contract that touch protected fields
+	{
+		var fns []*ssa.Function
+		for fn := range g.allFuncs {
+			if fn.Blocks == nil || !inModulePkg(pkgOf(fn)) || fn.Synthetic != "" {
+				continue
+			}
+			k := g.funcKey[fn]
+			if k == "" || cs.Funcs[k] != nil {
+				continue
+			}
+			if *fnFilter != "" && !strings.Contains(k, *fnFilter) {
+				continue
+			}
+			ic := g.inheritedContract(fn)
+			if ic != nil && !ic.VerifyImpls {
+				ic = nil
+			}
+			if ic != nil || g.touchesProtected(fn) || g.callsWithObligations(fn) {
+				fns = append(fns, fn)
+			}
+		}
+		sort.Slice(fns, func(i, j int) bool { return g.funcKey[fns[i]] < g.funcKey[fns[j]] })
+		prelude := preludeCommon + wrapDefs()
+		for _, fn := range fns {
+			k := g.funcKey[fn]
+			var scanCon *FuncContract
+			if ic := g.inheritedContract(fn); ic != nil && ic.VerifyImpls {
+				scanCon = ic
+			}
+			c := newFnCtx(g, fn, scanCon)
+			err := c.run()
+			rep := FnReport{Fn: shortFnName(k), Key: k, Arith: "int", Notes: c.notes, Loops: len(c.loops)}
+			if scanCon != nil {
+				rep.Notes = append(rep.Notes, "verified against the interface contract "+scanCon.IfaceKey)
+			}
+			for _, b := range fn.Blocks {
+				rep.Instrs += len(b.Instrs)
+			}
+			pset := map[string]bool{}
+			if err != nil {
+				rep.Error = err.Error()
+				output.Errors = append(output.Errors, fmt.Sprintf("%s: %v", k, err))
+			}
+			decls := c.sb.String()
+			for _, o := range c.obls {
+				if len(o.Props) == 0 || (len(want) > 0 && !intersects(o.Props, want)) {
+					continue
+				}
+				var sb strings.Builder
+				sb.WriteString(prelude)
+				sb.WriteString(decls[:o.declLen])
+				if o.extra != "" {
+					fmt.Fprintf(&sb, "(assert %s)\n", o.extra)
+				} else {
+					fmt.Fprintf(&sb, "(assert %s)\n(assert (not %s))\n", o.cur, o.goal)
+				}
+				o.SMT = sb.String()
+				o.Params = c.params
+				output.Obligations = append(output.Obligations, o)
+				rep.Obls++
+				for _, p := range o.Props {
+					pset[p] = true
+				}
+			}
+			for p := range pset {
+				rep.Props = append(rep.Props, p)
+			}
+			sort.Strings(rep.Props)
+			if rep.Obls > 0 || rep.Error != "" {
+				output.Functions = append(output.Functions, rep)
+			}
+		}
+	}
 	// lemmas: closed facts about spec functions
 	for _, d := range cs.Decls {
 		if d.Kind != "lemma" {
@@ -339,6 +413,57 @@ func (g *Global) lemmaObligation(d PkgDecl) (*Obligation, error) {
 	}
 	smt := preludeCommon + wrapDefs() + c.sb.String() + fmt.Sprintf("(assert %s)\n(assert (not %s))\n", st.cur, t)
 	return &Obligation{Name: c.fnName, Fn: c.fnName, Kind: "lemma", Props: d.Props, Clause: body, Pos: d.Pos, Backend: "smt", SMT: smt}, nil
+}
+
+// callsWithObligations: fn calls a function whose contract has preconditions, or
+// acquires an iterator (ghost g_open), so it carries obligations even without a contract.
+func (g *Global) callsWithObligations(fn *ssa.Function) bool {
+	for _, b := range fn.Blocks {
+		for _, in := range b.Instrs {
+			ci, ok := in.(ssa.CallInstruction)
+			if !ok {
+				continue
+			}
+			cc := ci.Common()
+			var con *FuncContract
+			if cc.IsInvoke() {
+				con = g.cs.Funcs[ifaceMethodKey(cc.Value.Type(), cc.Method)]
+			} else {
+				var f *ssa.Function
+				switch v := cc.Value.(type) {
+				case *ssa.Function:
+					f = v
+				case *ssa.MakeClosure:
+					f = v.Fn.(*ssa.Function)
+				}
+				if f != nil {
+					con = g.contractFor(f)
+				}
+			}
+			if con == nil {
+				continue
+			}
+			if len(con.Requires) > 0 {
+				return true
+			}
+			for _, m := range con.Modifies {
+				if strings.HasPrefix(m, "g_") {
+					return true
+				}
+			}
+		}
+	}
+	return false
+}
+
+func pkgOf(fn *ssa.Function) *ssa.Package {
+	for fn != nil {
+		if fn.Pkg != nil {
+			return fn.Pkg
+		}
+		fn = fn.Parent()
+	}
+	return nil
 }
 
 func intersects(ps []string, want map[string]bool) bool {
